@@ -38,6 +38,8 @@ struct G {
     gfns: Vec<String>,
     procs: Vec<String>,
     hfns: Vec<String>,
+    optf: Vec<String>,
+    clsf: Vec<String>,
     n: usize,
     last_int: bool,
     lit: u8,
@@ -83,7 +85,47 @@ impl G {
         let mut out = Vec::new();
         let was_int = self.last_int;
         self.last_int = false;
-        match rng.below(20) {
+        match rng.below(24) {
+            20 => {
+                // a pattern type whose set of inhabitants grows on later lines
+                let (v, o) = (self.fresh("vv"), self.fresh("opt"));
+                out.push(Step { src: format!("'{v} = 'int | 'bin"), alias: true, fails: false });
+                out.push(Step { src: format!("'{o} = Some['{v}] | None"), alias: true, fails: false });
+                let n = self.fresh("of");
+                out.push(s(format!("{n} = #'{o} {{ | =Some[x] => x | 0 }}")));
+                self.optf.push(n);
+            }
+            21 if !self.optf.is_empty() => {
+                let f = rng.pick(&self.optf).clone();
+                match rng.below(3) {
+                    0 => {
+                        out.push(s(format!("Some[{}] {f}", rng.range(1, 99))));
+                    }
+                    1 => {
+                        let l = self.bin_lit();
+                        out.push(s(format!("Some[{l}] {f}")));
+                    }
+                    _ => {
+                        out.push(s(format!("None {f}")));
+                        self.last_int = true;
+                    }
+                }
+            }
+            22 => {
+                let n = self.fresh("cl");
+                out.push(s(format!("{n} = #('int | (#'int -> 'int)) {{ | =(#'int -> 'int) => 1 | 0 }}")));
+                self.clsf.push(n);
+            }
+            23 if !self.clsf.is_empty() => {
+                let g = rng.pick(&self.clsf).clone();
+                if !self.fns.is_empty() && rng.chance(2, 3) {
+                    let f = rng.pick(&self.fns).clone();
+                    out.push(s(format!("&{f} {g}")));
+                } else {
+                    out.push(s(format!("{} {g}", rng.range(1, 9))));
+                }
+                self.last_int = true;
+            }
             0..=2 => {
                 let e = self.int_expr(rng);
                 let n = self.fresh("i");
@@ -256,7 +298,7 @@ impl Property for C11 {
         vec!["line_value_compared", "vars_compared", "rejected_line_between_accepted", "line_with_several_steps", "second_session_interleaved", "repl_compaction_with_heap_locals", "background_process_awaited_on_later_line"]
     }
     fn generate(&self, rng: &mut Rng, _tier: Tier) -> Scenario {
-        let mut g = G { ints: vec![], bins: vec![], tuples: vec![], fns: vec![], gfns: vec![], procs: vec![], hfns: vec![], n: 0, last_int: false, lit: 0x20 };
+        let mut g = G { ints: vec![], bins: vec![], tuples: vec![], fns: vec![], gfns: vec![], procs: vec![], hfns: vec![], optf: vec![], clsf: vec![], n: 0, last_int: false, lit: 0x20 };
         let mut steps: Vec<Step> = vec![Step { src: super::c04::SPIN.to_string(), alias: false, fails: false }];
         let n = 3 + rng.usize(8);
         let mut h = crate::rng::Fnv::default();
